@@ -41,6 +41,12 @@ def roundtrip_native(vc):
         ch.probs[-1] = post.f(ch.get_last()) * ch.inv_temp
         ch.set_non_negative(0, True)
     if k2 == "ensemble":
+        a_ = [1.5, 2.0, 3.2][seed % 3]            # a non-default stretch parameter must survive the round trip too
+        if a_ != 2.0:
+            from contracts.common import seed_chain
+            ch = EnsembleSampler(posterior=post, starting_positions=ch.walker_positions.copy(), bounds=bounds, alpha=a_,
+                                 display_progress=False)
+            seed_chain(ch, seed)
         if steps:
             quiet(ch.advance, max(1, steps // 25))
     else:
@@ -573,14 +579,30 @@ def ensemble_roundtrip(vc):
         lo = vc.vector("lower", d)
         up = lo + vc.vector("gap", d, pos=True)
         fields["bounds"] = vc.new(UTIL, "Bounds", lower=lo, upper=up)
-    sampler = vc.obj(ENS, "EnsembleSampler", **fields)
+    # built by the real constructor (so that every derived constant, e.g. the stretch limits computed from alpha, is what
+    # the constructor makes of its arguments), then given an arbitrary history
+    for qn in ("EnsembleSampler.__validate_starting_positions", "EnsembleSampler._EnsembleSampler__validate_starting_positions"):
+        vc.modular(qn, lambda I, func, args, kwargs: args[-1])
+    ctor_kw = {"bounds": fields["bounds"]} if bounded_ else {}
+    if bounded_:
+        p0 = fields["walker_positions"]
+        vc.assume_forall((nw, d), lambda w, j: S.And(S.cmp("<=", lo.at(j), p0.at(w, j)), S.cmp("<=", p0.at(w, j), up.at(j))))
+    from pyvc.loops import LoopSpec
+    vc.loop("EnsembleSampler.__init__", "for#0", LoopSpec(vc))      # (validation of each start point: no state carried)
+    with vc.raising_allowed():
+        sampler = vc.new(ENS, "EnsembleSampler", posterior=post, starting_positions=fields["walker_positions"], alpha=alpha,
+                         display_progress=False, **ctor_kw)
+    for k_, v_ in fields.items():
+        if k_ not in ("posterior", "bounds", "alpha", "display_progress"):
+            sampler.fields[k_] = v_
+    fields = dict(sampler.fields)
     Cls = vc.cls(ENS, "EnsembleSampler")
     reads = static_reads(vc, [Cls], ["advance", "get_sample", "get_probabilities", "get_parameter", "save",
                                      "_EnsembleSampler__advance_all", "_EnsembleSampler__advance_walker", "_EnsembleSampler__proposal"])
     vc.call(sampler, "save", "file.npz")
     with vc.raising_allowed():
         loaded = vc.call(Cls, "load", "file.npz", posterior=post)
-    skip = {"total_proposals", "bounds", "process_proposal", "sample", "sample_probs", "posterior"}
+    skip = {"total_proposals", "bounds", "process_proposal", "sample", "sample_probs", "posterior", "rng", "ProgressPrinter"}
     got = check_roundtrip(vc, sampler, loaded, (reads["EnsembleSampler"] | set(fields)) - skip, "sampler")
     vc.ensures("sampler_attributes_compared", len(got) >= 9)
     t0, t1 = sampler.fields["total_proposals"], loaded.fields.get("total_proposals")
